@@ -137,7 +137,6 @@ def main():
             "quick_cmd": f"./check {pid} --tier quick",
             "thorough_cmd": f"./check {pid} --tier thorough",
             "evidence_file": f"/verif/evidence/{pid}.json",
-            "replay_cmd_template": f"./check {pid} --tier quick --replay {{path}}",
             "engine": c["engine"],
             "level_claimed": {"category": c.get("category", MC), "text": c["text"], "design_ref": c["design"]},
             "level_note": c["note"],
